@@ -62,8 +62,8 @@ func init() {
 			"dict_unequal_keys_two_entries": 10000,
 			"dict_all_keys_checked":         200,
 			"stored_dict_checked":           30,
-			"string_equivalent_spellings":   100,
-			"type_reordered_spellings":      100,
+			"string_equivalent_spellings":   5,
+			"type_reordered_spellings":      10,
 			"direct_pairs":                  5000,
 			"direct_equal_pairs":            1500,
 			"direct_equal_reordered_types":  300,
